@@ -59,6 +59,21 @@ func dosFamilies(thorough bool) []dosFamily {
 			b.WriteString("\tt -= x\n\treturn t\n}\n")
 			return a.String(), b.String()
 		}},
+		{"same-fingerprint-never-equivalent", pick([]int{200, 800, 3200}, []int{200, 800, 3200, 8000}), func(n int) (string, string) {
+			// n users of one value with ONE fingerprint (BinOp:+) that are pairwise non-equivalent between
+			// old and new (small constants of opposite sign are kept by the policy): every old user scans
+			// its whole bucket - the worst case of the cap
+			var a, b strings.Builder
+			a.WriteString(hdr + "func F(x int) int {\n\tt := 0\n")
+			b.WriteString(hdr + "func F(x int) int {\n\tt := 0\n")
+			for i := 0; i < n; i++ {
+				fmt.Fprintf(&a, "\tt ^= x + %d\n", 1+i%16)
+				fmt.Fprintf(&b, "\tt ^= x + %d\n", -(1 + i%16))
+			}
+			a.WriteString("\treturn t\n}\n")
+			b.WriteString("\treturn t\n}\n")
+			return a.String(), b.String()
+		}},
 		{"identical-ops-in-branches", pick([]int{100, 400, 1600}, []int{100, 400, 1600, 4000}), func(n int) (string, string) {
 			var a, b strings.Builder
 			a.WriteString(hdr + "func F(x, y int) int {\n\tt := 0\n")
@@ -202,7 +217,9 @@ func zipperBound(fn *ssa.Function) int64 {
 			w = 100
 		}
 	}
-	return int64(diff.MaxCandidates)*(slots+int64(len(fn.Blocks))) + 2*w*w
+	// the cap of the PROVED bound (Model/ZipperCost.MaxCandidates = 100, tied to the source by
+	// C17_limits_match_model), not whatever the code currently declares
+	return 100*(slots+int64(len(fn.Blocks))) + 2*w*w
 }
 
 func dosChild(args []string) {
